@@ -508,6 +508,43 @@ pub fn corpus() -> Vec<(&'static str, Prog)> {
         b.tasks[2] = vec![Op::Acquire(s, 0), Op::Release(s, 1), Op::TryAcquire(s, 0)];
         v.push((if fair { "zero-permit-requests-fair" } else { "zero-permit-requests-unfair" }, b.finish(true)));
     }
+    // a pending unpark token must survive whatever other blocking the target does before it parks
+    {
+        // ... a mutex hand-off
+        let m = 0usize;
+        v.push((
+            "unpark-then-mutex-handoff-then-park",
+            Prog { objs: vec![Obj::Mutex], tasks: vec![vec![Op::Lock(m), Op::Spawn(1), Op::Unpark(1), Op::Unlock(m), Op::Join(1)], vec![Op::Lock(m), Op::Unlock(m), Op::Park]], senders: vec![], receivers: vec![] },
+        ));
+        // ... a barrier
+        v.push((
+            "unpark-then-barrier-then-park",
+            Prog { objs: vec![Obj::Barrier(2)], tasks: vec![vec![Op::Spawn(1), Op::Unpark(1), Op::BarrierWait(0), Op::Join(1)], vec![Op::BarrierWait(0), Op::Park]], senders: vec![], receivers: vec![] },
+        ));
+        // ... a channel receive
+        v.push((
+            "unpark-then-recv-then-park",
+            Prog { objs: vec![Obj::Chan(None)], tasks: vec![vec![Op::Spawn(1), Op::Unpark(1), Op::Send(0, 1), Op::Join(1)], vec![Op::Recv(0), Op::Park]], senders: vec![(0, vec![0])], receivers: vec![(0, 1)] },
+        ));
+        // ... a condvar wait (the notification may also come too early: the model knows)
+        v.push((
+            "unpark-then-condvar-then-park",
+            Prog {
+                objs: vec![Obj::Mutex, Obj::Condvar],
+                tasks: vec![
+                    vec![Op::Spawn(1), Op::Unpark(1), Op::Lock(0), Op::NotifyAll(1), Op::Unlock(0), Op::Join(1)],
+                    vec![Op::Lock(0), Op::Wait { cv: 1, m: 0 }, Op::Unlock(0), Op::Park],
+                ],
+                senders: vec![],
+                receivers: vec![],
+            },
+        ));
+        // ... a semaphore acquire
+        v.push((
+            "unpark-then-acquire-then-park",
+            Prog { objs: vec![Obj::Sem { permits: 0, fair: true }], tasks: vec![vec![Op::Spawn(1), Op::Unpark(1), Op::Release(0, 1), Op::Join(1)], vec![Op::Acquire(0, 1), Op::Park]], senders: vec![], receivers: vec![] },
+        ));
+    }
     // reused barrier with more tasks than n
     {
         let mut b = B::new(4);
